@@ -29,6 +29,7 @@ TECHNIQUE = 'static analysis: abstract interpretation in a linear-equality domai
 DESIGN_REF = 'DESIGN.md sections 3.5, 3.8 and 4 (C17)'
 EXPLANATION = ('INV per class x method x path; IDX slice-bound sign sites; SLICE offset normalisation; IFACE over EventSequence; PAIRED LeadSheet delegation; '
                'API stdlib attribute existence and __getslice__; STEPS rules for the performance family and PianorollSequence.set_length.')
+EXPLANATION += (' ' + 'RETAIN/override-store: an override of set_length may store into the event list only at index old_len (= len(self) taken before delegating) under old_len < steps and not from_left, i.e. only into the first padded slot on the right.')
 TRUSTED = ['list semantics as modelled', 'hasattr on standard-library modules of the checker\'s interpreter (same Python as the repository\'s)']
 NOT_DECIDED = ['lock-step equivalence with a list model over all operation histories', 'Melody events staying in -2..127 under arbitrary transposition (values)']
 ASSUMPTIONS = ['callers of ChordProgression.from_quantized_sequence pass start_step <= end_step']
